@@ -1068,3 +1068,802 @@ B('k18_listing_comprehension_filter', ['C18'], 'R18.a', (META, GRI, '''def get_r
 '''))
 B('k18_listing_redacts_more_than_secrets', ['C18'], 'R18.a', (META, "        if 'secret' in key:\n            trunc_val = '[REDACTED]'", "        if 'secret' in key or not isinstance(val, str):\n            trunc_val = '[REDACTED]'"))
 B('k18_listing_only_string_values', ['C18'], 'R18.a', (META, "        ret.append({'key': key, 'value': trunc_val})\n    return ret", "        if isinstance(val, (str, bytes, int, float)):\n            ret.append({'key': key, 'value': trunc_val})\n    return ret"))
+
+
+# ---- fifth pass: the views' helpers / classes live in another module of the package and are imported back ----------------
+# (the rules follow the definitions the views reach, wherever they live; each clause is broken *inside the moved copy*)
+NEWMOD = 'clastic/contrib/__init__.py'      # an empty module of the package: stands for a new private module next to meta.py
+UTILS = 'clastic/utils.py'                  # an existing module of the package
+_IMPORT_ANCHOR = 'from .static import StaticApplication\n'
+
+TRUNC = '''def _trunc(str_val, length=70, trailer='...'):
+    if len(str_val) > length:
+        if trailer:
+            str_val = str_val[:length - len(trailer)] + trailer
+        else:
+            str_val = str_val[:length]
+    return str_val
+'''
+
+GEI = '''def get_endpoint_info(route):
+    # TODO: callable object endpoints?
+    ret = {}
+    try:
+        ret['module_name'], ret['name'] = get_callable_name(route.endpoint)
+    except AttributeError:
+        try:
+            ret['name'] = repr(route.endpoint)
+        except:
+            ret['name'] = object.__repr__(route.endpoint)
+    return ret
+'''
+
+GRDI = '''def get_render_info(route):
+    ret = {'type': None}
+    render_arg = route.render_arg
+    if route.render_factory and not callable(render_arg):
+        ret['type'] = route.render_factory.__class__.__name__
+        ret['arg'] = render_arg
+    elif render_arg is None:
+        ret['arg'] = None
+    else:
+        try:
+            ret['arg'] = render_arg.func_name
+        except AttributeError:
+            ret['arg'] = render_arg.__class__.__name__
+    return ret
+'''
+
+GRAI_FULL = '''def get_route_arg_info(route):
+    fb = get_fb(route.endpoint)
+    r_args = fb.args
+    r_defaults = fb.get_defaults_dict()
+''' + GRAI
+
+MPERI = '''class MetaPeripheral(object):
+    title = 'Clastic MetaPeripheral'
+    group_key = 'mp'
+
+    def get_general_items(self):
+        "Returns list of 2-tuples to appear in the general section table"
+        return []
+
+    def get_context(self):
+        return {}
+
+    def render_main_page_html(self, context):
+        return None
+
+    def get_extra_routes(self):
+        return []
+'''
+
+AMPERI = '''class AshesMetaPeripheral(MetaPeripheral):
+    def __init__(self):
+        arf = AshesRenderFactory(_CUR_PATH, keep_whitespace=False)
+        self.loaded_template = arf.env.load(self.template_path)
+
+    def render_main_page_html(self, context):
+        return self.loaded_template.render(context)
+'''
+
+RPERI = '''class ResourcePeripheral(AshesMetaPeripheral):
+    title = 'Application Resources'
+    group_key = 'app'
+    template_path = 'meta_resource_section.html'
+
+    def get_context(self, _application):
+        return {'resources': get_resource_info(_application)}
+'''
+
+BPERI = '''class BasicPeripheral(MetaPeripheral):
+    title = 'Basic Peripheral'
+    group_key = 'basic'
+
+    def get_context(self, _meta_application):
+        start_time = _meta_application.resources['_meta_start_time']
+        return {'abs_start_time': str(start_time),
+                'rel_start_time': relative_time(start_time)}
+
+    def get_general_items(self, context):
+        return [('Start time', (context['rel_start_time'],
+                                context['abs_start_time']))]
+'''
+
+GHI = '''def get_host_info():
+    ret = {}
+    now = datetime.datetime.utcnow()
+
+    ret['hostname'] = socket.gethostname()
+    ret['hostfqdn'] = socket.getfqdn()
+    ret['uname'] = platform.uname()
+    ret['cpu_count'] = CPU_COUNT
+    ret['platform'] = platform.platform()
+    ret['platform_terse'] = platform.platform(terse=True)
+
+    ret['load_avgs'] = glom(os, T.getloadavg(), skip_exc=AttributeError)
+
+    ret['utc_time'] = str(now)
+    return ret
+'''
+
+
+def _mv(blocks, names, target=NEWMOD, header='', moved=None, extra=()):
+    """Edits that move the text blocks out of meta.py into ``target`` (``moved``: the text they have there, default
+    verbatim) and import ``names`` back."""
+    edits = [(META, b, '') for b in blocks]
+    modname = '.contrib' if target == NEWMOD else '.utils'
+    edits.append((META, _IMPORT_ANCHOR, _IMPORT_ANCHOR + 'from %s import %s\n' % (modname, ', '.join(names))))
+    body = header + '\n\n'.join(moved if moved is not None else blocks)
+    if target == NEWMOD:
+        edits.append((target, '', '# -*- coding: utf-8 -*-\n' + body))
+    else:
+        edits.append((target, 're:\\Z', ('\n\n' + body).replace('\\', '\\\\')))
+    return edits + list(extra)
+
+
+_H_SINTER = 'from ..sinter import get_fb, get_callable_name\nfrom ..application import NullRoute, RESERVED_ARGS\n\n\n'
+_H_UT_SINTER = 'from .sinter import get_fb, get_callable_name\nfrom .application import RESERVED_ARGS\n\n\n'
+_H_PERI = ('import os\n\nfrom boltons.timeutils import relative_time\n\nfrom ..render import AshesRenderFactory\n\n'
+           '_CUR_PATH = os.path.dirname(os.path.dirname(os.path.abspath(__file__)))\n\n\n')
+
+# R18.a: the resource listing (the floor of three reads of .resources is counted over the views, not over meta.py)
+T('k18_mv_resource_info_new_module', ['C18'], *_mv([TRUNC, GRI], ['_trunc', 'get_resource_info']))
+T('k18_mv_resource_info_existing_module', ['C18'], *_mv([TRUNC, GRI], ['_trunc', 'get_resource_info'], target=UTILS))
+T('k18_mv_trunc_only', ['C18'], *_mv([TRUNC], ['_trunc']))
+B('k18_mv_trunc_only_listing_unguarded', ['C18'], 'R18.a', *_mv([TRUNC], ['_trunc'], extra=[(META, "            trunc_val = '[REDACTED]'", "            trunc_val = _trunc(str(val))")]))
+B('k18_mv_resource_info_no_test', ['C18'], 'R18.a', *_mv([TRUNC, GRI], ['_trunc', 'get_resource_info'], moved=[TRUNC, '''def get_resource_info(_application):
+    ret = []
+    for key, val in _application.resources.items():
+        ret.append({'key': key, 'value': _trunc(repr(val))})
+    return ret
+''']))
+B('k18_mv_resource_info_wrong_polarity', ['C18'], 'R18.a', *_mv([TRUNC, GRI], ['_trunc', 'get_resource_info'], target=UTILS,
+                                                               moved=[TRUNC, GRI.replace("if 'secret' in key:", "if 'secret' not in key:")]))
+B('k18_mv_resource_info_raw_value', ['C18'], 'R18.a', *_mv([TRUNC, GRI], ['_trunc', 'get_resource_info'],
+                                                         moved=[TRUNC, GRI.replace("trunc_val = _trunc(repr(val))", "trunc_val = val")]))
+B('k18_mv_resource_info_key_rebound', ['C18'], 'R18.a', *_mv([TRUNC, GRI], ['_trunc', 'get_resource_info'], target=UTILS,
+                                                           moved=[TRUNC, GRI.replace("        if 'secret' in key:", "        key = key[:3]\n        if 'secret' in key:")]))
+# R18.b: the middleware rows
+T('k18_mv_mw_infos_new_module', ['C18'], *_mv([GMI], ['get_mw_infos']))
+T('k18_mv_mw_infos_existing_module', ['C18'], *_mv([GMI], ['get_mw_infos'], target=UTILS))
+_GMI_ROW = '''def _mw_row(mw):
+    cur = {}
+    cur['type_name'] = mw.__class__.__name__
+    cur['provides'] = mw.provides
+    cur['requires'] = mw.requires
+    cur['repr'] = repr(mw)
+    return cur
+
+
+def _mw_rows(_application):
+    return [_mw_row(mw) for mw in _application.middlewares]
+'''
+_GMI_THIN = '''def get_mw_infos(_application):
+    return _mw_rows(_application)
+'''
+T('k18_mv_mw_rows_helper_other_module', ['C18'], (META, GMI, _GMI_THIN), (NEWMOD, '', _GMI_ROW),
+  (META, _IMPORT_ANCHOR, _IMPORT_ANCHOR + 'from .contrib import _mw_rows\n'))
+B('k18_mv_mw_rows_helper_reads_secret', ['C18'], 'R18.b', (META, GMI, _GMI_THIN),
+  (NEWMOD, '', _GMI_ROW.replace("    cur['repr'] = repr(mw)\n", "    cur['repr'] = repr(mw)\n    cur['key'] = mw.secret_key\n")),
+  (META, _IMPORT_ANCHOR, _IMPORT_ANCHOR + 'from .contrib import _mw_rows\n'))
+B('k18_mv_mw_infos_reads_vars', ['C18'], 'R18.b', *_mv([GMI], ['get_mw_infos'], moved=[GMI.replace("cur['repr'] = repr(mw)", "cur['repr'] = repr(vars(mw))")]))
+B('k18_mv_mw_infos_reads_secret', ['C18'], 'R18.b', *_mv([GMI], ['get_mw_infos'], target=UTILS,
+                                                        moved=[GMI.replace("cur['requires'] = mw.requires", "cur['requires'] = mw.secret_key")]))
+# R18.a / R18.f: the route listing and its helpers
+T('k18_mv_route_infos_all', ['C18'], *_mv([GRIS, GEI, GRDI, GRAI_FULL], ['get_route_infos'], header=_H_SINTER))
+T('k18_mv_route_infos_all_imported_back', ['C18'], *_mv([GRIS, GEI, GRDI, GRAI_FULL], ['get_route_infos', 'get_endpoint_info', 'get_render_info', 'get_route_arg_info'],
+                                                      header=_H_SINTER))
+T('k18_mv_route_arg_info', ['C18'], *_mv([GRAI_FULL], ['get_route_arg_info'], target=UTILS, header=_H_UT_SINTER))
+T('k18_mv_render_endpoint_info', ['C18'], *_mv([GEI, GRDI], ['get_endpoint_info', 'get_render_info'], header='from ..sinter import get_callable_name\n\n\n'))
+B('k18_mv_route_arg_info_default_value', ['C18'], 'R18.a', *_mv([GRAI_FULL], ['get_route_arg_info'], target=UTILS, header=_H_UT_SINTER,
+                                                              moved=[GRAI_FULL.replace("                source = 'default'", "                source = r_defaults[arg]")]))
+B('k18_mv_route_arg_info_resource_value', ['C18'], 'R18.a', *_mv([GRIS, GEI, GRDI, GRAI_FULL], ['get_route_infos'], header=_H_SINTER,
+                                                               moved=[GRIS, GEI, GRDI, GRAI_FULL.replace("            source = 'resources'", "            source = repr(route.resources[arg])")]))
+B('k18_mv_route_infos_stores_route', ['C18'], 'R18.a', *_mv([GRIS, GEI, GRDI, GRAI_FULL], ['get_route_infos'], header=_H_SINTER,
+                                                          moved=[GRIS.replace("        r_info['url_pattern'] = r.pattern\n", "        r_info['url_pattern'] = r.pattern\n        r_info['route'] = r\n"),
+                                                                 GEI, GRDI, GRAI_FULL]))
+B('k18_mv_endpoint_info_stores_endpoint', ['C18'], 'R18.f', *_mv([GEI, GRDI], ['get_endpoint_info', 'get_render_info'], header='from ..sinter import get_callable_name\n\n\n',
+                                                               moved=[GEI.replace("            ret['name'] = repr(route.endpoint)", "            ret['name'] = route.endpoint"), GRDI]))
+B('k18_mv_render_info_stores_class', ['C18'], 'R18.f', *_mv([GRIS, GEI, GRDI, GRAI_FULL], ['get_route_infos'], header=_H_SINTER,
+                                                           moved=[GRIS, GEI, GRDI.replace("ret['type'] = route.render_factory.__class__.__name__", "ret['type'] = route.render_factory.__class__"), GRAI_FULL]))
+# the peripherals themselves
+_PERI_NAMES = ['MetaPeripheral', 'AshesMetaPeripheral', 'ResourcePeripheral', 'BasicPeripheral', '_trunc', 'get_resource_info']
+T('k18_mv_peripherals', ['C18'], *_mv([TRUNC, GRI, MPERI, AMPERI, RPERI, BPERI], _PERI_NAMES, header=_H_PERI))
+T('k18_mv_peripheral_bases', ['C18'], *_mv([MPERI, AMPERI], ['MetaPeripheral', 'AshesMetaPeripheral'], header=_H_PERI))
+B('k18_mv_peripherals_listing_unguarded', ['C18'], 'R18.a', *_mv([TRUNC, GRI, MPERI, AMPERI, RPERI, BPERI], _PERI_NAMES, header=_H_PERI,
+                                                               moved=[TRUNC, GRI.replace("trunc_val = '[REDACTED]'", "trunc_val = _trunc(repr(val))"), MPERI, AMPERI, RPERI, BPERI]))
+B('k18_mv_peripherals_context_reads_values', ['C18'], 'R18.a', *_mv([TRUNC, GRI, MPERI, AMPERI, RPERI, BPERI], _PERI_NAMES, header=_H_PERI,
+                                                                  moved=[TRUNC, GRI, MPERI, AMPERI, RPERI.replace("{'resources': get_resource_info(_application)}",
+                                                                                                                  "{'resources': get_resource_info(_application), 'all': sorted(_application.resources.values(), key=repr)}"), BPERI]))
+B('k18_mv_peripherals_context_holds_app', ['C18'], 'R18.a', *_mv([TRUNC, GRI, MPERI, AMPERI, RPERI, BPERI], _PERI_NAMES, header=_H_PERI,
+                                                               moved=[TRUNC, GRI, MPERI, AMPERI, RPERI, BPERI.replace("        return {'abs_start_time': str(start_time),", "        return {'app': _meta_application, 'abs_start_time': str(start_time),")]))
+B('k18_mv_peripherals_wrong_template', ['C18'], 'R18.d', *_mv([TRUNC, GRI, MPERI, AMPERI, RPERI, BPERI], _PERI_NAMES, header=_H_PERI,
+                                                            moved=[TRUNC, GRI, MPERI, AMPERI, RPERI.replace("meta_resource_section.html", "resource_section_raw.html"), BPERI]))
+B('k18_mv_peripheral_bases_raw_content', ['C18'], 'R18.d', *_mv([MPERI, AMPERI], ['MetaPeripheral', 'AshesMetaPeripheral'], header=_H_PERI,
+                                                              moved=[MPERI.replace("    def render_main_page_html(self, context):\n        return None", "    def render_main_page_html(self, context):\n        return context.get('html')"), AMPERI]))
+B('k18_mv_peripheral_bases_other_template', ['C18'], 'R18.d', *_mv([MPERI, AMPERI], ['MetaPeripheral', 'AshesMetaPeripheral'], header=_H_PERI,
+                                                                 moved=[MPERI, AMPERI.replace("return self.loaded_template.render(context)", "return context.get('html') or self.loaded_template.render(context)")]))
+# a function installed as a get_context lives in another module
+_H_HOST = ('import os\nimport socket\nimport platform\nimport datetime\n\nfrom glom import glom, T\n\ntry:\n    from multiprocessing import cpu_count\n'
+           '    CPU_COUNT = cpu_count()\nexcept:\n    CPU_COUNT = None\n\n\n')
+T('k18_mv_installed_context_function', ['C18'], *_mv([GHI], ['get_host_info'], header=_H_HOST))
+B('k18_mv_installed_context_function_module', ['C18'], 'R18.f', *_mv([GHI], ['get_host_info'], header=_H_HOST,
+                                                                    moved=[GHI.replace("ret['uname'] = platform.uname()", "ret['uname'] = platform")]))
+B('k18_mv_installed_context_function_lazy', ['C18'], 'R18.f', *_mv([GHI], ['get_host_info'], header=_H_HOST,
+                                                                  moved=[GHI.replace("ret['uname'] = platform.uname()", "ret['uname'] = (x for x in platform.uname())")]))
+# R18.c: the protected peripheral call made by a helper / a mixin of another module
+_SECT_HELPER = '''from ..sinter import inject
+
+
+def _section_context(peri, kwargs):
+    try:
+        return inject(peri.get_context, kwargs)
+    except Exception as e:
+        return {'exc_content': repr(e)}
+'''
+_GMAIN_VIA_HELPER = '''        for peri in self.peripherals:
+            peri_ctx = _section_context(peri, kwargs)
+            full_ctx.setdefault(peri.group_key, {}).update(peri_ctx)
+        return full_ctx
+'''
+_IMP_SECT = (META, _IMPORT_ANCHOR, _IMPORT_ANCHOR + 'from .contrib import _section_context\n')
+T('k18_mv_section_helper_other_module', ['C18'], (META, GMAIN, _GMAIN_VIA_HELPER), (NEWMOD, '', _SECT_HELPER), _IMP_SECT)
+B('k18_mv_section_helper_reraises', ['C18'], 'R18.c', (META, GMAIN, _GMAIN_VIA_HELPER),
+  (NEWMOD, '', _SECT_HELPER.replace("        return {'exc_content': repr(e)}", "        raise RuntimeError(repr(e))")), _IMP_SECT)
+B('k18_mv_section_helper_narrow_handler', ['C18'], 'R18.c', (META, GMAIN, _GMAIN_VIA_HELPER),
+  (NEWMOD, '', _SECT_HELPER.replace("except Exception as e:", "except KeyError as e:")), _IMP_SECT)
+B('k18_mv_section_helper_indexes_exception', ['C18'], 'R18.c', (META, GMAIN, _GMAIN_VIA_HELPER),
+  (NEWMOD, '', _SECT_HELPER.replace("repr(e)}", "e.args[0]}")), _IMP_SECT)
+_GET_MAIN = '''    def get_main(self, request, _application, _route, script_root):
+        full_ctx = {'page_title': self.page_title}
+        kwargs = {'request': request,
+                  '_route': _route,
+                  '_application': _application,
+                  '_meta_application': self,
+                  'script_root': script_root}
+''' + GMAIN
+_MIXIN = 'from ..sinter import inject\n\n\nclass _MainViewMixin(object):\n' + _GET_MAIN
+_MIXIN_EDITS = ((META, _GET_MAIN + '\n', ''), (META, 'class MetaApplication(Application):', 'class MetaApplication(_MainViewMixin, Application):'),
+                (META, _IMPORT_ANCHOR, _IMPORT_ANCHOR + 'from .contrib import _MainViewMixin\n'))
+T('k18_mv_get_main_mixin_other_module', ['C18'], (NEWMOD, '', _MIXIN), *_MIXIN_EDITS)
+B('k18_mv_get_main_mixin_unprotected', ['C18'], 'R18.c', (NEWMOD, '', _MIXIN.replace(
+    "            try:\n                peri_ctx = inject(peri.get_context, kwargs)\n            except Exception as e:\n                peri_ctx = {'exc_content': repr(e)}\n",
+    "            peri_ctx = inject(peri.get_context, kwargs)\n")), *_MIXIN_EDITS)
+B('k18_mv_get_main_mixin_try_around_loop', ['C18'], 'R18.c', (NEWMOD, '', _MIXIN.replace(GMAIN, '''        try:
+            for peri in self.peripherals:
+                peri_ctx = inject(peri.get_context, kwargs)
+                full_ctx.setdefault(peri.group_key, {}).update(peri_ctx)
+        except Exception as e:
+            full_ctx['exc_content'] = repr(e)
+        return full_ctx
+''')), *_MIXIN_EDITS)
+
+
+# ---- R18.c: every call of a method of a peripheral in a routed view is peripheral code (not only the three the views make today) --
+_TITLE_METHOD = ("    def get_extra_routes(self):\n        return []\n", "    def get_extra_routes(self):\n        return []\n\n    def get_title(self):\n        return self.title\n")
+_CUR_HEAD = "            cur = {'title': peri.title,\n                   'group_key': peri.group_key}\n"
+B('k18_peri_method_unprotected_in_render', ['C18'], 'R18.c', (META,) + _TITLE_METHOD,
+  (META, _CUR_HEAD, "            cur = {'title': peri.get_title(),\n                   'group_key': peri.group_key}\n"))
+B('k18_peri_method_unprotected_in_get_main', ['C18'], 'R18.c', (META,) + _TITLE_METHOD,
+  (META, "            full_ctx.setdefault(peri.group_key, {}).update(peri_ctx)", "            full_ctx.setdefault(peri.group_key, {}).update(peri_ctx)\n            full_ctx.setdefault('titles', []).append(peri.get_title())"))
+B('k18_peri_method_injected_unprotected', ['C18'], 'R18.c', (META,) + _TITLE_METHOD,
+  (META, _CUR_HEAD, "            cur = {'title': inject(peri.get_title, {}),\n                   'group_key': peri.group_key}\n"))
+B('k18_peri_method_unprotected_in_helper', ['C18'], 'R18.c', (META,) + _TITLE_METHOD,
+  (META, _CUR_HEAD, "            cur = _section_head(peri)\n"),
+  (META, "def _process_items(all_items):", "def _section_head(peri):\n    return {'title': peri.get_title(), 'group_key': peri.group_key}\n\n\ndef _process_items(all_items):"))
+B('k18_peri_method_unprotected_comprehension', ['C18'], 'R18.c', (META,) + _TITLE_METHOD,
+  (META, "        general_items = context['general'] = []\n", "        general_items = context['general'] = []\n        context['titles'] = [peri.get_title() for peri in self.peripherals]\n"))
+T('k18_peri_method_protected_in_render', ['C18'], (META,) + _TITLE_METHOD,
+  (META, "                cur_context = context[peri.group_key]\n", "                cur['title'] = peri.get_title()\n                cur_context = context[peri.group_key]\n"))
+T('k18_peri_method_protected_in_get_main', ['C18'], (META,) + _TITLE_METHOD,
+  (META, "                peri_ctx = inject(peri.get_context, kwargs)\n", "                peri_ctx = inject(peri.get_context, kwargs)\n                peri_ctx = dict(peri_ctx, title=peri.get_title())\n"))
+T('k18_peri_method_protected_helper_call', ['C18'], (META,) + _TITLE_METHOD,
+  (META, "                cur_context = context[peri.group_key]\n", "                cur.update(_section_head(peri))\n                cur_context = context[peri.group_key]\n"),
+  (META, "def _process_items(all_items):", "def _section_head(peri):\n    return {'title': peri.get_title(), 'group_key': peri.group_key}\n\n\ndef _process_items(all_items):"))
+T('k18_peri_method_outside_views', ['C18'], (META,) + _TITLE_METHOD,
+  (META, "            routes.extend(peri.get_extra_routes())\n", "            routes.extend(peri.get_extra_routes())\n            peri.get_title()\n"))
+
+# ---- R18.c: what the code after the try statement reads is bound on the failure path as well ------------------------------
+B('k18_result_unbound_handler_logs', ['C18'], 'R18.c', (META, "                peri_ctx = {'exc_content': repr(e)}\n", "                full_ctx.setdefault('errors', []).append(repr(e))\n"))
+B('k18_result_unbound_handler_stores_container', ['C18'], 'R18.c', (META, "            except Exception as e:\n                cur_general_items = []\n",
+                                                                          "            except Exception as e:\n                cur['general_exc'] = repr(e)\n"))
+B('k18_result_stale_default_before_loop', ['C18'], 'R18.c',
+  (META, "        for peri in self.peripherals:\n            try:\n                peri_ctx = inject(peri.get_context, kwargs)\n            except Exception as e:\n                peri_ctx = {'exc_content': repr(e)}\n",
+         "        peri_ctx = {}\n        for peri in self.peripherals:\n            try:\n                peri_ctx = inject(peri.get_context, kwargs)\n            except Exception as e:\n                full_ctx['exc_content'] = repr(e)\n"))
+B('k18_result_unbound_in_helper', ['C18'], 'R18.c', (META, GMAIN, '''        for peri in self.peripherals:
+            full_ctx.setdefault(peri.group_key, {}).update(self._peri_context(peri, kwargs, full_ctx))
+        return full_ctx
+
+    def _peri_context(self, peri, kwargs, full_ctx):
+        try:
+            peri_ctx = inject(peri.get_context, kwargs)
+        except Exception as e:
+            full_ctx.setdefault('errors', []).append(repr(e))
+        return peri_ctx
+'''))
+T('k18_result_default_in_iteration', ['C18'], (META, GMAIN, '''        for peri in self.peripherals:
+            peri_ctx = None
+            try:
+                peri_ctx = inject(peri.get_context, kwargs)
+            except Exception as e:
+                exc = repr(e)
+            if peri_ctx is None:
+                peri_ctx = {'exc_content': exc}
+            full_ctx.setdefault(peri.group_key, {}).update(peri_ctx)
+        return full_ctx
+'''))
+T('k18_result_handler_records_and_continues', ['C18'], (META, GMAIN, '''        for peri in self.peripherals:
+            try:
+                peri_ctx = inject(peri.get_context, kwargs)
+            except Exception as e:
+                full_ctx.setdefault(peri.group_key, {}).update({'exc_content': repr(e)})
+                continue
+            full_ctx.setdefault(peri.group_key, {}).update(peri_ctx)
+        return full_ctx
+'''))
+T('k18_result_read_only_under_protection', ['C18'], (META, "                cur_general_items = inject(peri.get_general_items, kwargs)\n",
+                                                       "                cur_general_items = inject(peri.get_general_items, dict(kwargs, title=cur_context.get('title')))\n"))
+T('k18_result_helper_returns_both_ways', ['C18'], (META, GMAIN, '''        for peri in self.peripherals:
+            full_ctx.setdefault(peri.group_key, {}).update(self._peri_context(peri, kwargs))
+        return full_ctx
+
+    def _peri_context(self, peri, kwargs):
+        try:
+            peri_ctx = inject(peri.get_context, kwargs)
+        except Exception as e:
+            peri_ctx = {'exc_content': repr(e)}
+        return peri_ctx
+'''))
+
+# ---- R18.c: the handler catches exceptions of any class -- it reads from them only what every exception has ----------------
+B('k18_handler_reads_message', ['C18'], 'R18.c', (META, "                peri_ctx = {'exc_content': repr(e)}\n", "                peri_ctx = {'exc_content': '%s: %s' % (type(e).__name__, e.message)}\n"))
+B('k18_handler_reads_errno', ['C18'], 'R18.c', (META, "            except Exception as e:\n                cur['exc_content'] = repr(e)\n",
+                                                      "            except Exception as e:\n                cur['exc_content'] = repr(e)\n                cur['exc_code'] = e.errno\n"))
+B('k18_handler_helper_reads_code', ['C18'], 'R18.c', (META, "                peri_ctx = {'exc_content': repr(e)}\n", "                peri_ctx = {'exc_content': _exc_text(e)}\n"),
+  (META, "def _process_items(all_items):", "def _exc_text(exc):\n    return '%s (%s)' % (repr(exc), exc.code)\n\n\ndef _process_items(all_items):"))
+T('k18_handler_reads_args_and_class', ['C18'], (META, "                peri_ctx = {'exc_content': repr(e)}\n",
+                                                  "                peri_ctx = {'exc_content': '%s%r' % (e.__class__.__name__, e.args)}\n"))
+T('k18_handler_getattr_default', ['C18'], (META, "                peri_ctx = {'exc_content': repr(e)}\n",
+                                              "                peri_ctx = {'exc_content': repr(e), 'exc_code': getattr(e, 'code', None)}\n"))
+T('k18_handler_hasattr_guard', ['C18'], (META, "                peri_ctx = {'exc_content': repr(e)}\n",
+                                            "                peri_ctx = {'exc_content': repr(e)}\n                if hasattr(e, 'code'):\n                    peri_ctx['exc_code'] = e.code\n"))
+T('k18_handler_nested_try', ['C18'], (META, "                peri_ctx = {'exc_content': repr(e)}\n",
+                                         "                peri_ctx = {'exc_content': repr(e)}\n                try:\n                    peri_ctx['exc_code'] = e.code\n                except AttributeError:\n                    pass\n"))
+
+# ---- R18.a: glom(x, 'resources') / glom(x, T.resources) is the same read as x.resources ------------------------------------
+T('k18_glom_string_spec', ['C18'], (META, "    for key, val in _application.resources.items():", "    for key, val in glom(_application, 'resources').items():"))
+T('k18_glom_t_spec', ['C18'], (META, "    for key, val in _application.resources.items():", "    resources = glom(_application, T.resources)\n    for key, val in resources.items():"))
+T('k18_glom_names_only', ['C18'], (META, "        elif arg in route.resources:", "        elif arg in glom(route, 'resources', default={}):"))
+B('k18_glom_string_spec_unguarded', ['C18'], 'R18.a', (META, GRI, '''def get_resource_info(_application):
+    ret = []
+    for key, val in glom(_application, 'resources').items():
+        ret.append({'key': key, 'value': _trunc(repr(val))})
+    return ret
+'''))
+B('k18_glom_t_spec_values', ['C18'], 'R18.a', (META, "        return {'resources': get_resource_info(_application)}",
+                                                   "        return {'resources': get_resource_info(_application), 'count': len(set(map(repr, glom(_application, T.resources).values())))}"))
+B('k18_glom_path_through_mapping', ['C18'], 'R18.a', (META, "        return {'abs_start_time': str(start_time),", "        return {'db': repr(glom(_meta_application, 'resources.db_secret', default=None)), 'abs_start_time': str(start_time),"))
+B('k18_glom_constant_spec_values', ['C18'], 'R18.a', (META, "DEFAULT_PAGE_TITLE = 'Clastic'\n", "DEFAULT_PAGE_TITLE = 'Clastic'\n_RES_SPEC = 'resources'\n"),
+  (META, "        return {'middlewares': get_mw_infos(_application)}", "        return {'middlewares': get_mw_infos(_application), 'res': [repr(v) for v in glom(_application, _RES_SPEC).values()]}"))
+
+# ---- R18.b: wherever a view holds one middleware of the host, only the harmless attributes are read; no view reads key material ----
+B('k18_mw_key_read_in_route_arg_info', ['C18'], 'R18.b', (META, "                if arg in mw.provides:\n                    source = 'middleware'\n",
+                                                                "                if arg in mw.provides:\n                    source = 'middleware'\n                    arg_src['mw_key'] = mw.secret_key\n"))
+B('k18_mw_vars_in_route_infos', ['C18'], 'R18.b', (META, "        r_info['args'] = get_route_arg_info(r)\n",
+                                                         "        r_info['args'] = get_route_arg_info(r)\n        r_info['mws'] = [sorted(vars(mw)) and repr(vars(mw)) for mw in r.middlewares]\n"))
+B('k18_mw_key_read_by_index', ['C18'], 'R18.b', (META, "        return {'middlewares': get_mw_infos(_application)}",
+                                                       "        return {'middlewares': get_mw_infos(_application), 'first_key': _application.middlewares[0].secret_key if _application.middlewares else None}"))
+B('k18_mw_key_read_getattr', ['C18'], 'R18.b', (META, "        cur['repr'] = repr(mw)\n        ret.append(cur)\n    return ret\n",
+                                                      "        cur['repr'] = repr(mw)\n        ret.append(cur)\n    ret.append({'key': getattr(_application.middlewares[-1], 'secret_key', None)})\n    return ret\n"))
+T('k18_mw_provides_in_route_infos', ['C18'], (META, "        r_info['args'] = get_route_arg_info(r)\n",
+                                                    "        r_info['args'] = get_route_arg_info(r)\n        r_info['mw_provides'] = [list(mw.provides) for mw in r.middlewares]\n"))
+T('k18_mw_names_in_context', ['C18'], (META, "        return {'middlewares': get_mw_infos(_application)}",
+                                             "        return {'middlewares': get_mw_infos(_application), 'mw_names': [mw.__class__.__name__ for mw in _application.middlewares]}"))
+
+# ---- R18.a: no page context holds a *list* of host objects either ---------------------------------------------------------
+B('k18_ctx_holds_route_list', ['C18'], 'R18.a', (META, "        return {'routes': get_route_infos(_application),", "        return {'routes': get_route_infos(_application), 'raw_routes': _application.routes,"))
+B('k18_ctx_holds_mw_list_copy', ['C18'], 'R18.a', (META, "        return {'middlewares': get_mw_infos(_application)}",
+                                                         "        mws = list(_application.middlewares)\n        return {'middlewares': get_mw_infos(_application), 'raw': mws}"))
+B('k18_route_info_holds_mw_list', ['C18'], 'R18.a', (META, "        r_info['args'] = get_route_arg_info(r)\n", "        r_info['args'] = get_route_arg_info(r)\n        r_info['mws'] = r.middlewares\n"))
+B('k18_ctx_holds_sorted_routes_local', ['C18'], 'R18.a', (META, GRIS, GRIS.replace("    ret = []\n", "    ret = []\n    routes = app.routes\n").replace(
+    "    return ret\n", "    ret.append({'all': tuple(routes)})\n    return ret\n")))
+T('k18_ctx_holds_route_count', ['C18'], (META, "        return {'routes': get_route_infos(_application),", "        return {'routes': get_route_infos(_application), 'route_count': len(_application.routes),"))
+T('k18_route_info_holds_mw_reprs', ['C18'], (META, "        r_info['args'] = get_route_arg_info(r)\n", "        r_info['args'] = get_route_arg_info(r)\n        r_info['mws'] = [repr(mw) for mw in r.middlewares]\n"))
+
+# ---- R18.c: the handler neither reads what only the protected block binds nor repeats one of its lookups --------------------
+B('k18_handler_reads_try_bound_name', ['C18'], 'R18.c', (META, "            except Exception as e:\n                cur['exc_content'] = repr(e)\n",
+                                                               "            except Exception as e:\n                cur['exc_content'] = repr(e)\n                cur['had_context'] = bool(cur_context)\n"))
+B('k18_handler_extends_try_bound_name', ['C18'], 'R18.c', (META, "                peri_ctx = {'exc_content': repr(e)}\n", "                peri_ctx = dict(peri_ctx, exc_content=repr(e))\n"))
+B('k18_handler_repeats_lookup_render', ['C18'], 'R18.c', (META, "            except Exception as e:\n                cur['exc_content'] = repr(e)\n",
+                                                                "            except Exception as e:\n                cur['exc_content'] = repr(e)\n                context[peri.group_key]['failed'] = True\n"))
+B('k18_handler_repeats_lookup_get_main', ['C18'], 'R18.c', (META, GMAIN, '''        for peri in self.peripherals:
+            full_ctx.setdefault(peri.group_key, {})
+            try:
+                full_ctx[peri.group_key].update(inject(peri.get_context, kwargs))
+            except Exception as e:
+                full_ctx[peri.group_key].update({'exc_content': repr(e)})
+        return full_ctx
+'''.replace("full_ctx.setdefault(peri.group_key, {})\n            try:\n                full_ctx[peri.group_key]", "try:\n                full_ctx.setdefault(peri.group_key, {})\n                full_ctx[peri.group_key]")))
+T('k18_handler_lookup_before_try', ['C18'], (META, GMAIN, '''        for peri in self.peripherals:
+            group_ctx = full_ctx.setdefault(peri.group_key, {})
+            try:
+                group_ctx.update(inject(peri.get_context, kwargs))
+            except Exception as e:
+                group_ctx.update({'exc_content': repr(e)})
+        return full_ctx
+'''))
+T('k18_handler_reads_name_bound_before_try', ['C18'], (META, "            try:\n                cur_context = context[peri.group_key]\n                kwargs = {'context': cur_context}\n",
+                                                             "            cur_context = context.get(peri.group_key, {})\n            try:\n                kwargs = {'context': cur_context}\n"),
+  (META, "            except Exception as e:\n                cur['exc_content'] = repr(e)\n", "            except Exception as e:\n                cur['exc_content'] = repr(e)\n                cur['had_context'] = bool(cur_context)\n"))
+T('k18_handler_repeats_lookup_nested_try', ['C18'], (META, "            except Exception as e:\n                cur['exc_content'] = repr(e)\n",
+                                                           "            except Exception as e:\n                cur['exc_content'] = repr(e)\n                try:\n                    context[peri.group_key]['failed'] = True\n                except KeyError:\n                    pass\n"))
+
+
+# ---- the meta application itself lives in another module (meta.py imports it back at its end) ---------------------------------
+_MAPP_HEADER = '''import datetime
+
+from ..application import Application
+from ..sinter import inject
+from ..render import render_json, AshesRenderFactory
+from ..middleware.url import ScriptRootMiddleware
+from ..middleware.context import SimpleContextProcessor
+from ..meta import DEFAULT_PERIPHERALS, DEFAULT_PAGE_TITLE, META_ASSETS_APP, _CUR_PATH
+
+try:
+    unicode
+except NameError:
+    unicode = str
+
+
+'''
+_MAPP = '''class MetaApplication(Application):
+    def __init__(self, peripherals=None, page_title=DEFAULT_PAGE_TITLE,
+                 base_peripherals=DEFAULT_PERIPHERALS):
+        self.page_title = page_title
+        self.peripherals = list(base_peripherals)
+        self.peripherals.extend(peripherals or [])
+
+        self._arf = AshesRenderFactory(_CUR_PATH, keep_whitespace=False)
+        self._main_page_render = self._arf('meta_base.html')
+        routes = [('/', self.get_main, self.render_main_page_html),
+                  ('/clastic_assets/', META_ASSETS_APP),
+                  ('/json/', self.get_main, render_json)]
+        for peri in self.peripherals:
+            routes.extend(peri.get_extra_routes())
+        resources = {'_meta_start_time': datetime.datetime.utcnow(),
+                     'page_title': page_title}
+
+        mwares = [ScriptRootMiddleware(),
+                  SimpleContextProcessor('script_root')]
+        super(MetaApplication, self).__init__(routes, resources, mwares)
+
+    def get_main(self, request, _application, _route, script_root):
+        full_ctx = {'page_title': self.page_title}
+        kwargs = {'request': request,
+                  '_route': _route,
+                  '_application': _application,
+                  '_meta_application': self,
+                  'script_root': script_root}
+        for peri in self.peripherals:
+            try:
+                peri_ctx = inject(peri.get_context, kwargs)
+            except Exception as e:
+                peri_ctx = {'exc_content': repr(e)}
+            full_ctx.setdefault(peri.group_key, {}).update(peri_ctx)
+        return full_ctx
+
+    def render_main_page_html(self, context):
+        context['sections'] = []
+        general_items = context['general'] = []
+
+        for peri in self.peripherals:
+            cur = {'title': peri.title,
+                   'group_key': peri.group_key}
+            try:
+                cur_context = context[peri.group_key]
+                kwargs = {'context': cur_context}
+                cur['content'] = inject(peri.render_main_page_html, kwargs)
+
+                prev_exc = cur_context.get('exc_content')
+                if prev_exc:
+                    cur['exc_content'] = prev_exc
+            except Exception as e:
+                cur['exc_content'] = repr(e)
+            try:
+                cur_general_items = inject(peri.get_general_items, kwargs)
+                cur_general_items = _process_items(cur_general_items)
+            except Exception as e:
+                cur_general_items = []
+            context['sections'].append(cur)
+            general_items.extend(cur_general_items)
+        return self._main_page_render(context)
+
+
+def _process_items(all_items):
+    """ Really, each key/value/key detail/value detail should have a
+    human readable form and a machine readable form. That's a lot of
+    keys, should probably do that later.
+    """
+    ret = []
+    for item in all_items:
+        cur = {}
+        try:
+            key, value = item
+        except:
+            try:
+                key, value = item[0], item[1:]
+            except:
+                value = ''
+                try:
+                    key = repr(item)
+                except:
+                    key = 'unreprable object %s' % object.__repr__(key)
+        if isinstance(key, (bytes, unicode)):
+            cur['key'] = key
+        else:
+            try:
+                cur['key'] = unicode(key[0])
+                cur['key_detail'] = unicode(key[1])
+            except:
+                cur['key'] = unicode(key)
+        if isinstance(value, (bytes, unicode)):
+            cur['value'] = value
+        else:
+            try:
+                cur['value'] = unicode(value[0])
+                cur['value_detail'] = unicode(value[1])
+            except:
+                cur['value'] = str(value)
+        ret.append(cur)
+    return ret
+'''
+_MAPP_OUT = (META, r're:(?s)\nclass MetaApplication\(Application\):.*\Z', '\nfrom .contrib import MetaApplication, _process_items\n')
+T('k18_mv_meta_application', ['C18'], _MAPP_OUT, (NEWMOD, '', _MAPP_HEADER + _MAPP))
+B('k18_mv_meta_application_unprotected_context', ['C18'], 'R18.c', _MAPP_OUT, (NEWMOD, '', _MAPP_HEADER + _MAPP.replace(
+    "            try:\n                peri_ctx = inject(peri.get_context, kwargs)\n            except Exception as e:\n                peri_ctx = {'exc_content': repr(e)}\n",
+    "            peri_ctx = inject(peri.get_context, kwargs)\n")))
+B('k18_mv_meta_application_general_items_unprotected', ['C18'], 'R18.c', _MAPP_OUT, (NEWMOD, '', _MAPP_HEADER + _MAPP.replace(
+    "            try:\n                cur_general_items = inject(peri.get_general_items, kwargs)\n                cur_general_items = _process_items(cur_general_items)\n"
+    "            except Exception as e:\n                cur_general_items = []\n",
+    "            cur_general_items = _process_items(inject(peri.get_general_items, kwargs))\n")))
+B('k18_mv_meta_application_other_main_template', ['C18'], 'R18.d', _MAPP_OUT, (NEWMOD, '', _MAPP_HEADER + _MAPP.replace("self._arf('meta_base.html')", "self._arf('meta_raw.html')")))
+B('k18_mv_meta_application_reads_own_resources', ['C18'], 'R18.a', _MAPP_OUT, (NEWMOD, '', _MAPP_HEADER + _MAPP.replace(
+    "        full_ctx = {'page_title': self.page_title}\n", "        full_ctx = {'page_title': self.page_title, 'res': dict(_application.resources)}\n")))
+
+# a helper of another module called through the module (``from . import contrib as _views`` ... ``_views.helper(..)``)
+_SHOWN = '''def _shown_value(key, val):
+    if 'secret' in key:
+        return '[REDACTED]'
+    text = repr(val)
+    return text if len(text) <= 70 else text[:67] + '...'
+
+
+def _resource_rows(_application):
+    return [{'key': key, 'value': _shown_value(key, val)} for key, val in _application.resources.items()]
+'''
+_IMP_VIEWS = (META, _IMPORT_ANCHOR, _IMPORT_ANCHOR + 'from . import contrib as _views\n')
+T('k18_mv_row_helper_via_module', ['C18'], _IMP_VIEWS, (NEWMOD, '', _SHOWN), (META, GRI, '''def get_resource_info(_application):
+    return [{'key': key, 'value': _views._shown_value(key, val)} for key, val in _application.resources.items()]
+'''))
+T('k18_mv_rows_helper_via_module', ['C18'], _IMP_VIEWS, (NEWMOD, '', _SHOWN), (META, GRI, '''def get_resource_info(_application):
+    return _views._resource_rows(_application)
+'''))
+B('k18_mv_row_helper_via_module_leaks', ['C18'], 'R18.a', _IMP_VIEWS, (NEWMOD, '', _SHOWN.replace("    if 'secret' in key:\n        return '[REDACTED]'\n", "")), (META, GRI, '''def get_resource_info(_application):
+    return [{'key': key, 'value': _views._shown_value(key, val)} for key, val in _application.resources.items()]
+'''))
+B('k18_mv_rows_helper_via_module_leaks', ['C18'], 'R18.a', _IMP_VIEWS, (NEWMOD, '', _SHOWN.replace("'value': _shown_value(key, val)}", "'value': repr(val)}")), (META, GRI, '''def get_resource_info(_application):
+    return _views._resource_rows(_application)
+'''))
+
+# an accumulator that exists before the loop and is only updated in the protected block is not "the result of this iteration"
+T('k18_result_accumulator_before_loop', ['C18'], (META, GMAIN, '''        n_ok = 0
+        for peri in self.peripherals:
+            try:
+                peri_ctx = inject(peri.get_context, kwargs)
+                n_ok += 1
+            except Exception as e:
+                peri_ctx = {'exc_content': repr(e)}
+            full_ctx.setdefault(peri.group_key, {}).update(peri_ctx)
+        full_ctx['page_title'] = '%s (%d sections)' % (self.page_title, n_ok)
+        return full_ctx
+'''))
+T('k18_result_accumulator_read_in_loop', ['C18'], (META, GMAIN, '''        n_ok = 0
+        for peri in self.peripherals:
+            try:
+                peri_ctx = inject(peri.get_context, kwargs)
+                n_ok = n_ok + 1
+            except Exception as e:
+                peri_ctx = {'exc_content': repr(e)}
+            full_ctx.setdefault(peri.group_key, {}).update(peri_ctx, sections_ok=n_ok)
+        return full_ctx
+'''))
+# the 'secret' fragment / the marker as class-level constants: reading them is not reading key material
+T('k18_fragment_in_constants_class', ['C18'], (META, "DEFAULT_PAGE_TITLE = 'Clastic'\n", "DEFAULT_PAGE_TITLE = 'Clastic'\n\n\nclass _Redaction(object):\n    SECRET_FRAGMENT = 'secret'\n    SECRET_MARK = '[REDACTED]'\n"),
+  (META, "        if 'secret' in key:\n            trunc_val = '[REDACTED]'", "        if _Redaction.SECRET_FRAGMENT in key:\n            trunc_val = _Redaction.SECRET_MARK"))
+
+# a method the tree defines for all peripherals is accepted outside a try only when its body *is* the fail-soft handler
+_SAFE_METHOD = '''    def get_extra_routes(self):
+        return []
+
+    def safe_get_context(self, injectables):
+        try:
+            return inject(self.get_context, injectables)
+        except Exception as e:
+            return {'exc_content': '%r' % (e,)}
+'''
+_GMAIN_SAFE = '''        for peri in self.peripherals:
+            peri_ctx = peri.safe_get_context(kwargs)
+            full_ctx.setdefault(peri.group_key, {}).update(peri_ctx)
+        return full_ctx
+'''
+B('k18_method_on_peripheral_prelude_unprotected', ['C18'], 'R18.c', (META, "    def get_extra_routes(self):\n        return []\n", _SAFE_METHOD.replace(
+    "        try:\n            return inject(self.get_context, injectables)\n", "        injectables = dict(injectables, title=self.title.strip())\n        try:\n            return inject(self.get_context, injectables)\n")),
+  (META, GMAIN, _GMAIN_SAFE))
+B('k18_method_on_peripheral_narrow', ['C18'], 'R18.c', (META, "    def get_extra_routes(self):\n        return []\n", _SAFE_METHOD.replace("except Exception as e:", "except (KeyError, ValueError) as e:")),
+  (META, GMAIN, _GMAIN_SAFE))
+# .. the same with the peripheral classes in another module (the method is found through the classes meta.py imports)
+T('k18_mv_method_on_peripheral', ['C18'], *_mv([TRUNC, GRI, MPERI, AMPERI, RPERI, BPERI], _PERI_NAMES, header='from ..sinter import inject\n' + _H_PERI,
+                                              moved=[TRUNC, GRI, MPERI.replace("    def get_extra_routes(self):\n        return []\n", _SAFE_METHOD), AMPERI, RPERI, BPERI],
+                                              extra=[(META, GMAIN, _GMAIN_SAFE)]))
+B('k18_mv_method_on_peripheral_reraises', ['C18'], 'R18.c', *_mv([TRUNC, GRI, MPERI, AMPERI, RPERI, BPERI], _PERI_NAMES, header='from ..sinter import inject\n' + _H_PERI,
+                                                               moved=[TRUNC, GRI, MPERI.replace("    def get_extra_routes(self):\n        return []\n", _SAFE_METHOD.replace(
+                                                                   "            return {'exc_content': '%r' % (e,)}", "            raise RuntimeError('%r' % (e,))")), AMPERI, RPERI, BPERI],
+                                                               extra=[(META, GMAIN, _GMAIN_SAFE)]))
+B('k18_mv_method_on_peripheral_no_handler', ['C18'], 'R18.c', *_mv([TRUNC, GRI, MPERI, AMPERI, RPERI, BPERI], _PERI_NAMES, header='from ..sinter import inject\n' + _H_PERI,
+                                                                 moved=[TRUNC, GRI, MPERI.replace("    def get_extra_routes(self):\n        return []\n",
+                                                                                                  "    def get_extra_routes(self):\n        return []\n\n    def safe_get_context(self, injectables):\n        return inject(self.get_context, injectables)\n"),
+                                                                        AMPERI, RPERI, BPERI],
+                                                                 extra=[(META, GMAIN, _GMAIN_SAFE)]))
+
+# ---- R18.c: whether a section is computed depends on the peripheral alone (never on what other sections left behind) ----------
+_RENDER_TRY = ("                cur['content'] = inject(peri.render_main_page_html, kwargs)\n\n                prev_exc = cur_context.get('exc_content')\n"
+               "                if prev_exc:\n                    cur['exc_content'] = prev_exc\n")
+B('k18_render_skipped_when_group_failed', ['C18'], 'R18.c', (META, _RENDER_TRY,
+  "                if not cur_context.get('exc_content'):\n                    cur['content'] = inject(peri.render_main_page_html, kwargs)\n                else:\n                    cur['exc_content'] = cur_context['exc_content']\n"))
+B('k18_context_only_for_first_of_group', ['C18'], 'R18.c', (META, GMAIN, '''        for peri in self.peripherals:
+            known = peri.group_key in full_ctx
+            try:
+                peri_ctx = {} if known else inject(peri.get_context, kwargs)
+            except Exception as e:
+                peri_ctx = {'exc_content': repr(e)}
+            full_ctx.setdefault(peri.group_key, {}).update(peri_ctx)
+        return full_ctx
+'''))
+B('k18_context_skipped_after_first_failure', ['C18'], 'R18.c', (META, GMAIN, '''        failed = False
+        for peri in self.peripherals:
+            peri_ctx = {}
+            try:
+                if not failed:
+                    peri_ctx = inject(peri.get_context, kwargs)
+            except Exception as e:
+                failed = True
+                peri_ctx = {'exc_content': repr(e)}
+            full_ctx.setdefault(peri.group_key, {}).update(peri_ctx)
+        return full_ctx
+'''))
+B('k18_general_items_guarded_by_continue', ['C18'], 'R18.c', (META, "            try:\n                cur_general_items = inject(peri.get_general_items, kwargs)\n",
+  "            if cur.get('exc_content'):\n                context['sections'].append(cur)\n                continue\n            try:\n                cur_general_items = inject(peri.get_general_items, kwargs)\n"))
+B('k18_helper_skips_when_context_has_error', ['C18'], 'R18.c', (META, GMAIN, '''        for peri in self.peripherals:
+            full_ctx.setdefault(peri.group_key, {}).update(self._peri_context(peri, kwargs, full_ctx))
+        return full_ctx
+
+    def _peri_context(self, peri, kwargs, full_ctx):
+        if 'exc_content' in full_ctx.get(peri.group_key, {}):
+            return {}
+        try:
+            return inject(peri.get_context, kwargs)
+        except Exception as e:
+            return {'exc_content': repr(e)}
+'''))
+T('k18_render_guarded_by_peripheral_attribute', ['C18'], (META, "                cur['content'] = inject(peri.render_main_page_html, kwargs)\n",
+  "                if getattr(peri, 'renders_html', True):\n                    cur['content'] = inject(peri.render_main_page_html, kwargs)\n"))
+T('k18_context_guarded_by_named_peripheral_test', ['C18'], (META, GMAIN, '''        for peri in self.peripherals:
+            has_context = callable(getattr(peri, 'get_context', None))
+            try:
+                peri_ctx = inject(peri.get_context, kwargs) if has_context else {}
+            except Exception as e:
+                peri_ctx = {'exc_content': repr(e)}
+            full_ctx.setdefault(peri.group_key, {}).update(peri_ctx)
+        return full_ctx
+'''))
+T('k18_context_guarded_by_configuration', ['C18'], (META, "        self.page_title = page_title\n", "        self.page_title = page_title\n        self.skip_groups = ()\n"),
+  (META, GMAIN, '''        for peri in self.peripherals:
+            if peri.group_key in self.skip_groups:
+                continue
+            try:
+                peri_ctx = inject(peri.get_context, kwargs)
+            except Exception as e:
+                peri_ctx = {'exc_content': repr(e)}
+            full_ctx.setdefault(peri.group_key, {}).update(peri_ctx)
+        return full_ctx
+'''))
+T('k18_helper_guarded_by_peripheral_param', ['C18'], (META, GMAIN, '''        for peri in self.peripherals:
+            full_ctx.setdefault(peri.group_key, {}).update(self._peri_context(peri, kwargs))
+        return full_ctx
+
+    def _peri_context(self, peri, kwargs):
+        if not hasattr(peri, 'get_context'):
+            return {}
+        try:
+            return inject(peri.get_context, kwargs)
+        except Exception as e:
+            return {'exc_content': repr(e)}
+'''))
+T('k18_second_call_guarded_by_own_result', ['C18'], (META, "            try:\n                cur_general_items = inject(peri.get_general_items, kwargs)\n",
+  "            try:\n                wants = inject(peri.render_main_page_html, kwargs) is not None\n                cur_general_items = inject(peri.get_general_items, kwargs) if wants else []\n"))
+T('k18_context_guarded_by_configuration_local', ['C18'], (META, "        self.page_title = page_title\n", "        self.page_title = page_title\n        self.skip_groups = ()\n"),
+  (META, GMAIN, '''        skipped = self.skip_groups
+        for peri in self.peripherals:
+            if peri.group_key in skipped:
+                continue
+            try:
+                peri_ctx = inject(peri.get_context, kwargs)
+            except Exception as e:
+                peri_ctx = {'exc_content': repr(e)}
+            full_ctx.setdefault(peri.group_key, {}).update(peri_ctx)
+        return full_ctx
+'''))
+B('k18_context_skipped_for_seen_groups', ['C18'], 'R18.c', (META, GMAIN, '''        seen = set()
+        for peri in self.peripherals:
+            if peri.group_key in seen:
+                continue
+            seen.add(peri.group_key)
+            try:
+                peri_ctx = inject(peri.get_context, kwargs)
+            except Exception as e:
+                peri_ctx = {'exc_content': repr(e)}
+            full_ctx.setdefault(peri.group_key, {}).update(peri_ctx)
+        return full_ctx
+'''))
+
+# ---- R18.d: what the resource listing produces is what its section template shows (table agreement) --------------------------
+RES_TPL = 'clastic/meta_resource_section.html'
+B('k18_listing_row_key_renamed', ['C18'], 'R18.d', (META, "        ret.append({'key': key, 'value': trunc_val})", "        ret.append({'key': key, 'val': trunc_val})"))
+B('k18_listing_context_key_renamed', ['C18'], 'R18.d', (META, "        return {'resources': get_resource_info(_application)}", "        return {'resource_list': get_resource_info(_application)}"))
+B('k18_listing_template_other_column', ['C18'], 'R18.d', (RES_TPL, "{.value}", "{.val}"))
+B('k18_listing_template_drops_value', ['C18'], 'R18.d', (RES_TPL, "<td>{.key}</td><td>{.value}</td>", "<td>{.key}</td>"))
+B('k18_listing_template_other_section', ['C18'], 'R18.d', (RES_TPL, "  {#resources}\n", "  {#resource_list}\n"), (RES_TPL, "  {/resources}\n</table>", "  {/resource_list}\n</table>"))
+B('k18_listing_rows_by_helper_key_renamed', ['C18'], 'R18.d', (META, GRI, '''def _resource_row(name, shown):
+    return {'name': name, 'value': shown}
+
+
+def get_resource_info(_application):
+    ret = []
+    for key, val in _application.resources.items():
+        ret.append(_resource_row(key, '[REDACTED]' if 'secret' in key else _trunc(repr(val))))
+    return ret
+'''))
+T('k18_listing_renamed_consistently', ['C18'], (META, "        ret.append({'key': key, 'value': trunc_val})", "        ret.append({'key': key, 'shown': trunc_val})"),
+  (RES_TPL, "{.value}", "{.shown}"))
+T('k18_listing_rows_dict_call', ['C18'], (META, "        ret.append({'key': key, 'value': trunc_val})", "        ret.append(dict(key=key, value=trunc_val))"))
+T('k18_listing_rows_slot_by_slot', ['C18'], (META, "        ret.append({'key': key, 'value': trunc_val})", "        row = {}\n        row['key'] = key\n        row['value'] = trunc_val\n        ret.append(row)"))
+T('k18_listing_rows_by_helper', ['C18'], (META, GRI, '''def _resource_row(name, shown):
+    return {'key': name, 'value': shown}
+
+
+def get_resource_info(_application):
+    ret = []
+    for key, val in _application.resources.items():
+        ret.append(_resource_row(key, '[REDACTED]' if 'secret' in key else _trunc(repr(val))))
+    return ret
+'''))
+T('k18_listing_context_via_local', ['C18'], (META, "        return {'resources': get_resource_info(_application)}", "        rows = get_resource_info(_application)\n        ctx = {}\n        ctx['resources'] = rows\n        return ctx"))
+# (what the framework injects into the routed view -- an argument of the URL -- is the same for every section)
+T('k18_context_guarded_by_view_argument', ['C18'], (META, GMAIN, '''        wanted = request.args.get('group')
+        for peri in self.peripherals:
+            if wanted and peri.group_key != wanted:
+                continue
+            try:
+                peri_ctx = inject(peri.get_context, kwargs)
+            except Exception as e:
+                peri_ctx = {'exc_content': repr(e)}
+            full_ctx.setdefault(peri.group_key, {}).update(peri_ctx)
+        return full_ctx
+'''))
+T('k18_listing_rows_namedtuple', ['C18'], (META, "DEFAULT_PAGE_TITLE = 'Clastic'\n", "DEFAULT_PAGE_TITLE = 'Clastic'\n_ResourceRow = __import__('collections').namedtuple('_ResourceRow', 'key value')\n"),
+  (META, "        ret.append({'key': key, 'value': trunc_val})", "        ret.append(_ResourceRow(key, trunc_val)._asdict())"))
+T('k18_listing_rows_zip_keys_constant', ['C18'], (META, "DEFAULT_PAGE_TITLE = 'Clastic'\n", "DEFAULT_PAGE_TITLE = 'Clastic'\n_ROW_KEYS = ('key', 'value')\n"),
+  (META, "        ret.append({'key': key, 'value': trunc_val})", "        ret.append(dict(zip(_ROW_KEYS, (key, trunc_val))))"))
+B('k18_listing_rows_zip_keys_constant_renamed', ['C18'], 'R18.d', (META, "DEFAULT_PAGE_TITLE = 'Clastic'\n", "DEFAULT_PAGE_TITLE = 'Clastic'\n_ROW_KEYS = ('name', 'shown')\n"),
+  (META, "        ret.append({'key': key, 'value': trunc_val})", "        ret.append(dict(zip(_ROW_KEYS, (key, trunc_val))))"))
